@@ -192,9 +192,10 @@ def coq_deps(target_v):
 STMT_RE = re.compile(r"^\s*(Lemma|Theorem|Corollary|Example|Fact|Proposition)\s+([A-Za-z0-9_']+)", re.M)
 
 
-def count_obligations(vfiles):
-    """(obligations, discharged, per-file list): named statements in the files;
-    discharged = those in files whose .vo is newer than the .v."""
+def count_obligations(vfiles, all_ok=False):
+    """(obligations, discharged, per-file list): named statements in the files.
+    discharged = statements of the files whose .vo is up to date (all of them
+    when the target was just built successfully; otherwise asked of make -q)."""
     total = 0
     done = 0
     detail = []
@@ -204,8 +205,11 @@ def count_obligations(vfiles):
             continue
         with open(p) as f:
             names = [m.group(2) for m in STMT_RE.finditer(f.read())]
-        vo = p + "o"
-        ok = os.path.exists(vo) and os.path.getmtime(vo) >= os.path.getmtime(p)
+        if all_ok:
+            ok = True
+        else:
+            rc, _, _ = run(["make", "-q", v + "o"], cwd=COQ, timeout=120)
+            ok = rc == 0 and os.path.exists(p + "o")
         total += len(names)
         if ok:
             done += len(names)
